@@ -77,17 +77,20 @@ pub proof fn lemma_norm_unique(b: int, s1: int, e1: int, s2: int, e2: int)
 
 /// what `cmp` / `==` on FBig values may rely on: a finite value of limited precision p carries at most p + 1 digits
 /// (C03; guaranteed by every public producer since `with_precision` rounds unlimited sources, /repo 73390f4; `from_repr`
-/// demands it); infinities are canonical; exponents / digit counts / precisions below 2^60 (isize overflow outside the contract)
+/// demands it); infinities are canonical; exponents / precisions below 2^60 (isize overflow outside the contract);
+/// digit counts below 2^56 -- resource limit: exponent overflow is a documented panic (C16), not modelled: case 6 of
+/// repr_cmp_same_base calls `shl_digits` with an exponent difference of up to digits_ub <= 2 * digits + 2, whose bit
+/// position `pos * log2(B)` must fit usize (`pos_room`)
 pub open spec fn fbig_cmp_pre<R: Round, const B: Word>(f: FBig<R, B>) -> bool {
     let (S, E, p) = (f.repr.significand.v(), f.repr.exponent as int, f.context.precision);
     canonical_inf(S, E)
     && (p != 0 && !is_inf(S, E) ==> ndigits(B as int, S) <= p + 1)
     && p < 0x1000_0000_0000_0000 && -0x1000_0000_0000_0000 < E && E < 0x1000_0000_0000_0000
-    && ndigits(B as int, S) < 0x1000_0000_0000_0000
+    && ndigits(B as int, S) < 0x100_0000_0000_0000
 }
 pub open spec fn repr_cmp_pre<const B: Word>(r: Repr<B>) -> bool {
     let (S, E) = (r.significand.v(), r.exponent as int);
-    canonical_inf(S, E) && -0x1000_0000_0000_0000 < E && E < 0x1000_0000_0000_0000 && ndigits(B as int, S) < 0x1000_0000_0000_0000
+    canonical_inf(S, E) && -0x1000_0000_0000_0000 < E && E < 0x1000_0000_0000_0000 && ndigits(B as int, S) < 0x100_0000_0000_0000
 }
 /// invariant of Repr (every constructor goes through normalize()): the significand is not divisible by the base
 pub open spec fn repr_normalized<const B: Word>(r: Repr<B>) -> bool {
